@@ -265,7 +265,7 @@ def handleKernel (j : Json) : Except String Verdict := do
   if herr ≥ 0 then return { agree := true, spec := true, tags := ["OUT_OF_MODEL"] }
   let k : Kernel := { loops, out, declared }
   let r := runK declared loops out ⟨out.length, z⟩ ops
-  let okAsserts := assertsOk r.2
+  let okAsserts := assertsOk (wtrOf traces) r.2
   let sessOps := [MOp.beginCollect (some p)] ++ traces.map (fun (rk, t) => MOp.trace rk t false) ++ callsOf r.2 ++ [MOp.endCollect]
   let (_, sN, serr) := c15_runList sessOps s0 [] 0
   let impl ← field j "impl"
@@ -288,7 +288,7 @@ def handleKernel (j : Json) : Except String Verdict := do
   -- (1) transparency
   if offErr then spec := false; why := why ++ "kernel fails with collection off; "
   if onErr then
-    spec := false; why := why ++ "transparent: the kernel aborts with collection on (assert insert_pos is not None) but runs with collection off; "
+    spec := false; why := why ++ "transparent: the kernel aborts with collection on (lshift_iterator asserts insert_pos is not None: insertion with the write trace on, output shape not declared) but runs with collection off; "
   else if on.compress != off.compress then
     spec := false; why := why ++ "transparent: results with collection on and off differ; "
   if !onErr then
@@ -329,7 +329,9 @@ def handleKernel (j : Json) : Except String Verdict := do
   let zl := match (⟨out.length, z⟩ : ATree) with
     | ⟨_ + 1, f⟩ => !(show List _ from f).isEmpty
     | _ => false
-  let tags := (if r.2.any (fun e => match e with | .assertShape _ _ => true | _ => false) then ["revisit"] else []) ++
+  let tags := (if r.2.any (fun e => match e with | .assertShape _ _ _ => true | _ => false) then ["revisit"] else []) ++
+    (if r.2.any (fun e => match e with | .assertShape _ _ ins => ins | _ => false) then ["inserting"] else []) ++
+    (if r.2.any (fun e => match e with | .assertShape v d ins => !d && ins && !wtrOf traces v | _ => false) then ["undeclared-insert-untraced"] else []) ++
     (if !okAsserts then ["assert-fires"] else []) ++
     (if nAdd r.2 > 0 then ["add"] else []) ++ (if nMul r.2 > 0 then ["mul"] else []) ++
     (if nUpd r.2 == 0 then ["no-update"] else []) ++
